@@ -318,6 +318,9 @@ func (h h1) Gen(prop, tier string, r *simrt.Rng) (any, simrt.Config) {
 		nplans = 3 + r.Intn(30)
 	case "C08":
 		c.Driver = simrt.Pick(r, "api", "cli")
+		if c.Driver == "cli" {
+			c.Interactive = false // the counts are read from the structured summary record
+		}
 		c.IgnoreDropped = r.Intn(2) == 0
 		c.MaxFailures = uint64(simrt.Pick(r, 0, 0, 1, 2, 5))
 		c.MaxFailRate = simrt.Pick(r, 0, 0, 1, 5, 10, 50, 99, 100)
